@@ -102,7 +102,7 @@ def run(ctx, replay):
     if not replay and not os.environ.get("VERIF_DEV_SKIP_MC"):
         if thorough:
             r = ctx.tlc_expect_ok("Pool", None, name="mc", workers=16, timeout=3000,
-                                  cfg_text=cfg(2, ("k1",), rounds=2, maxtime=3, breaks=0))
+                                  cfg_text=cfg(2, ("k1",), rounds=2, maxtime=2, breaks=0, close=("TRUE",)))
             r2 = ctx.tlc_expect_ok("Pool", None, name="mc2", workers=16, timeout=3000,
                                    cfg_text=cfg(2, ("k1", "k2"), mk=1, rounds=1, maxtime=3, breaks=1))
             ctx.cov["states_two_keys"] = r2["distinct"]
